@@ -25,7 +25,7 @@ import (
 func main() {
 	vk.Main(&vk.Check{
 		ID:   "C06",
-		Rule: "token sequences: every concatenation of <=N JSON tokens (N=4 quick / 5 thorough) over a 16-symbol alphabet decoded into each of 10 target types (field \"f\" of every structural kind, recursive types included); shape matrix: every (kind x label x context) schema x 40 JSON values of depth <=2 in the position of the field; prefixes and single-byte substitutions (12-byte alphabet) of one canonical document per schema; nesting bombs through every recursive path (depth 10..10^4 quick, 10^5 thorough), huge numbers and strings; allocation growth of 20 input shapes at 2000 vs 8000 repetitions; url.Values: 20 keys x 11 value lists per schema; non-trivial = non-empty input; distinct by construction",
+		Rule: "token sequences: every concatenation of <=N JSON tokens (N=4 quick / 5 thorough) over a 16-symbol alphabet decoded into each of 10 target types (field \"f\" of every structural kind, recursive types included); shape matrix: every (kind x label x context) schema x 40 JSON values of depth <=2 in the position of the field; prefixes and single-byte substitutions (12-byte alphabet) of one canonical document per schema; nesting bombs through every recursive path (depth 10..10^4 and 2x10^6 quick, also 10^5 thorough), huge numbers and strings; decimal exponents around every integer width; Any envelopes (22 type names x 13 value shapes x member order x 2 codec configurations); allocation growth of 20 input shapes at 2000 vs 8000 repetitions; url.Values: 20 keys x 11 value lists per schema; non-trivial = non-empty input; distinct by construction",
 		Assumptions: []string{
 			"'never loops forever' is decided by a progress watchdog (120 s per input of at most a few hundred kB), not by a termination proof",
 			"workers run with Go's default 1 GB goroutine stack limit: a stack overflow is reported only if the real process would die too",
